@@ -296,3 +296,80 @@ def check_memoised_functions(res: Result, sm: SourceModel) -> int:
       sample={"function": fi.key, "decorator": decs[0]},
     )
   return n
+
+
+# ------------------------------------------------------------------------------------------------ R-GLOBAL.9
+_STASH_CANARY = '''
+def f(m: types.Model, d: Data):
+  mask = getattr(d, "_cached_mask", None)
+  d._cached_mask = mask
+  setattr(m, "extra", 1)
+  d.qpos = mask
+'''
+
+
+def _object_stashes(tree, schema_attrs) -> list:
+  """(node, text) for every access that creates / reads hidden per-object state on a Model or Data parameter: assignment
+  to an attribute the dataclass does not declare, or getattr/setattr/hasattr/delattr/vars/__dict__ on the object."""
+  import ast
+
+  out = []
+  for fn in ast.walk(tree):
+    if not isinstance(fn, (ast.FunctionDef, ast.AsyncFunctionDef)):
+      continue
+    typed = {}
+    for a in fn.args.posonlyargs + fn.args.args + fn.args.kwonlyargs:
+      if a.annotation is not None:
+        an = ast.unparse(a.annotation).replace("Optional[", "").rstrip("]")
+        for c in ("Model", "Data"):
+          if an.split(".")[-1] == c:
+            typed[a.arg] = c
+    if not typed:
+      continue
+    for n in ast.walk(fn):
+      if isinstance(n, (ast.Assign, ast.AugAssign, ast.AnnAssign)):
+        for x in n.targets if isinstance(n, ast.Assign) else [n.target]:
+          if isinstance(x, ast.Attribute) and isinstance(x.value, ast.Name) and x.value.id in typed and x.attr not in schema_attrs[typed[x.value.id]]:
+            out.append((n, f"{fn.name}: {ast.unparse(x)} = ..."))
+      elif isinstance(n, ast.Call) and isinstance(n.func, ast.Name) and n.func.id in ("setattr", "getattr", "hasattr", "delattr", "vars") and n.args and isinstance(n.args[0], ast.Name) and n.args[0].id in typed:
+        name = n.args[1].value if len(n.args) > 1 and isinstance(n.args[1], ast.Constant) else None
+        if n.func.id in ("getattr", "hasattr") and name in schema_attrs[typed[n.args[0].id]]:
+          continue
+        out.append((n, f"{fn.name}: {ast.unparse(n)[:70]}"))
+      elif isinstance(n, ast.Attribute) and n.attr == "__dict__" and isinstance(n.value, ast.Name) and n.value.id in typed:
+        out.append((n, f"{fn.name}: {ast.unparse(n)}"))
+  return out
+
+
+def check_object_stashes(res: Result, sm: SourceModel) -> int:
+  """R-GLOBAL.9: Model and Data are closed records - every piece of simulation state is a declared dataclass field (which
+  make_data / reset_data / put_data initialise and the state rules account for). A function that hangs an undeclared
+  attribute on the Model/Data it is given (`d._cache = ...`, setattr, getattr with a default) creates state that survives
+  between calls and that no reset, copy or comparison of the record knows about."""
+  import ast
+
+  attrs = {"Model": set(), "Data": set()}
+  for spec in sm.schema.values():
+    if spec.cls in attrs:
+      attrs[spec.cls].add(spec.path.split(".")[0])
+  # sub-records are declared fields too
+  attrs["Model"] |= {"opt", "stat", "block_dim", "callback"}
+  attrs["Data"] |= {"efc", "contact"}
+  if len(attrs["Model"]) < 300 or len(attrs["Data"]) < 100:
+    res.error(f"anchor vanished: schema lists {len(attrs['Model'])} Model / {len(attrs['Data'])} Data attributes")
+  canary = _object_stashes(ast.parse(_STASH_CANARY), attrs)
+  if len(canary) != 3:
+    res.error(f"canary: the hidden-attribute matcher reports {len(canary)} of the 3 positive examples (and must not report the declared field)")
+  n = 0
+  for mod in sm.modules.values():
+    if mod.name.endswith("_test") or mod.name in ("cli",):
+      continue
+    n += 1
+    for node, text in _object_stashes(mod.tree, attrs):
+      res.ob(
+        False,
+        f"{mod.name}|stash|{text}",
+        Finding("R-GLOBAL.9", f"{mod.name}|{text.split(':')[0]}|hidden-attribute|{text.split(':', 1)[1].strip()[:40]}", f"`{text}` keeps state in an attribute that the Model/Data dataclass does not declare: it survives between calls and is unknown to make_data / reset_data / put_data and to every comparison of the record", f"{mod.path}:{node.lineno}"),
+      )
+    res.ob(True, f"{mod.name}|no-hidden-attributes")
+  return n
